@@ -46,6 +46,9 @@ func NewSparseFloat32Vector(indices []int, values []float32, n int) *SparseFloat
   }
   r := nilSparseFloat32Vector(n)
   for i, k := range indices {
+    if k < 0 {
+      panic("negative index")
+    }
     if k >= n {
       panic("index larger than vector dimension")
     }
